@@ -380,3 +380,7 @@ def check(case):
             sc, g = obj.evaluateS1(x.copy())
             case.true(not np.isfinite(sc), 'evaluateS1 reports the finite score %r where plain evaluation gives %r' % (
                 sc, plain))
+
+
+RULE += (' Classes and clauses added in later rounds of the seeded-change protocol (DESIGN 9.4) are named in REQUIRED '
+         'and in seeded/HISTORY.json; the evidence counts every one of them under classes.')
